@@ -43,6 +43,10 @@ def scenarios():
         # five-minute bars (data resampled by the markets' own _resample): the seven-minute window holds two rows, not seven
         "5min-ramp+3%": ([Decimal(2000) * Decimal("1.03") ** max(0, i - 3) for i in range(N)], "eq", None, 5),
         "5min-step+30%": (step("1.3", at=5), "eq", None, 5),
+        # oSQTH trades at a constant 50% premium to its index (norm factor scaled down): liquidations pay out at 1.1 x a mark far above
+        # the index, so the dust rule and the cap at the vault's collateral both come into play on small vaults
+        "premium1.5-ramp+4%": ([Decimal(2000) * Decimal("1.04") ** max(0, i - 6) for i in range(N)], "eq", None, 1, Fraction(2, 3)),
+        "premium2.2-step+30%": (step("1.3"), "eq", None, 1, Fraction(5, 11)),
     }
 
 
@@ -57,7 +61,9 @@ def make_world(scn, start=START):
     from mc.worlds.kit import Ctx
     from demeter.squeeth.helper import get_price_from_data
 
-    eth_bars, kind, mark_mult, bar_minutes = scenarios()[scn]
+    spec = scenarios()[scn]
+    eth_bars, kind, mark_mult, bar_minutes = spec[:4]
+    nf_scale = spec[4] if len(spec) > 4 else Fraction(1)
     p = sq.pool()
     n_raw = N * bar_minutes
     eth = [eth_bars[i // bar_minutes] for i in range(n_raw)]
@@ -72,7 +78,8 @@ def make_world(scn, start=START):
     udata = uni.prepared(raw, p)
     osqth_eth = list(udata["price"])
     if kind == "eq":
-        nf = [osqth_eth[0] * Decimal(10**4) / Decimal(2000)] * n_raw  # mark = index while ETH is at 2000 and the mark has not jumped
+        # mark = index x (1 / nf_scale) while ETH is at 2000 and the mark has not jumped
+        nf = [osqth_eth[0] * Decimal(10**4) / Decimal(2000) * Decimal(nf_scale.numerator) / Decimal(nf_scale.denominator)] * n_raw
     else:
         nf = [Decimal("0.46") - Decimal("0.0003") * (i // bar_minutes) for i in range(n_raw)]
     sdata = pd.DataFrame(index=udata.index, data={"norm_factor": nf, "WETH": eth, "OSQTH": osqth_eth})
@@ -396,6 +403,7 @@ class Oracle:
                 if pay > C:
                     amt = S
                     pay = C
+                    part.count("liquidations_capped_at_collateral")
                 S2, C2 = S - amt, C - pay
                 part.count("liquidations_full" if amt == S else "liquidations_half")
             else:
@@ -439,10 +447,11 @@ def run_partition(args):
 def main(run: Run):
     depth = run.pick(3, 4)
     max_dev = run.pick(2, 3)
-    scns = list(scenarios()) if run.thorough else ["flat", "step+2%", "step+30%", "step+150%", "ne-step+30%", "mark-x2.5", "5min-ramp+3%"]
+    scns = list(scenarios()) if run.thorough else ["flat", "step+2%", "step+30%", "step+150%", "ne-step+30%", "mark-x2.5", "5min-ramp+3%",
+                                                    "premium1.5-ramp+4%"]
     jobs = []
     for scn in scns:
-        for start in ((START, 2) if scn in ("step+30%", "flat") else (START,)):
+        for start in ((START, 2) if scn in ("step+30%", "flat") else ((START, 10) if scn == "mark-x2.5" else (START,))):
             world = make_world(scn, start)
             for root in ROOTS:
                 ctx, outs = kit.replay_history(world.build, alphabet(world), root)
@@ -467,7 +476,7 @@ def main(run: Run):
                 "non-trivial = a vault-bar below 1.5x or a safety check of an accepted operation on a vault with debt",
         "vault_bars_unsafe": c.get("vault_bars_unsafe", 0), "vault_bars_safe": c.get("vault_bars_safe", 0),
         "liquidations_half": c.get("liquidations_half", 0), "liquidations_full": c.get("liquidations_full", 0),
-        "lp_redeemed": c.get("lp_redeemed", 0), "saved_by_lp": c.get("saved_by_lp", 0),
+        "liquidations_capped_at_collateral": c.get("liquidations_capped_at_collateral", 0), "lp_redeemed": c.get("lp_redeemed", 0), "saved_by_lp": c.get("saved_by_lp", 0),
         "exhaustive": True, "completed_bound": {"depth_after_seed": depth, "deviations": max_dev, "scenarios": len(scns), "seeded_roots": len(ROOTS)},
     }
     return run.finish(cov, ["reference TWAP = geometric mean of the trailing 7 rows ending at the current bar, 60 digits; implementation TWAP is float: 1e-9 "
